@@ -153,6 +153,8 @@ macro_rules! serde_types {
             "tup_color_opt" => $f::<(Color, Option<u8>)>($a), "vec_opt_color" => $f::<Vec<Option<Color>>>($a),
             "tup_ext_opt" => $f::<(Ext, Option<Ext>, Ext)>($a), "vec_opt_ext" => $f::<Vec<Option<Ext>>>($a),
             "TsColorOpt" => $f::<TsColorOpt>($a),
+            "ipaddr" => $f::<std::net::IpAddr>($a), "sockaddr" => $f::<std::net::SocketAddr>($a), "vec_ipaddr" => $f::<Vec<std::net::IpAddr>>($a),
+            "NetS" => $f::<NetS>($a),
             _ => "bad-op".to_string()
         })
     };
@@ -202,8 +204,32 @@ fn op_iserh(kind: &str, a: &str) -> String {
     }
 }
 
+/// `ides2 <hex A> <hex B>`: ONE decoder / Deserializer over A ++ B: a `String` is read at 0 (whatever happens), the position is set to
+/// `len(A)`, a `String` is read again: `<native second result> | <bridge second result>` (`ok <hex> <pos>` / `err <class> <pos>`).
+fn op_ides2(a: &str, b: &str) -> String {
+    let (a, b) = match (sx::unhex(a), sx::unhex(b)) { (Some(a), Some(b)) => (a, b), _ => return "bad-op".into() };
+    let mut buf = a.clone(); buf.extend_from_slice(&b);
+    let nat = {
+        let mut d = minicbor::Decoder::new(&buf);
+        let _ = d.decode::<String>();
+        d.set_position(a.len());
+        let r = d.decode::<String>();
+        match r { Ok(v) => format!("ok {} {}", if v.is_empty() { "-".to_string() } else { hex(v.as_bytes()) }, d.position()), Err(e) => format!("err {} {}", class(&e.to_string()), d.position()) }
+    };
+    let bri = {
+        let mut d = minicbor_serde::Deserializer::new(&buf);
+        let _ = <String as serde::Deserialize>::deserialize(&mut d);
+        d.decoder_mut().set_position(a.len());
+        let r = <String as serde::Deserialize>::deserialize(&mut d);
+        let pos = d.decoder().position();
+        match r { Ok(v) => format!("ok {} {}", if v.is_empty() { "-".to_string() } else { hex(v.as_bytes()) }, pos), Err(e) => format!("err {} {}", class(&e.to_string()), pos) }
+    };
+    format!("{} | {}", nat, bri)
+}
+
 fn dispatch(w: &[&str]) -> String {
     if w.len() != 3 { return "bad-op".into() }
+    if w[0] == "ides2" { return op_ides2(w[1], w[2]) }
     if w[0] == "ideb" { return op_ideb(w[1], w[2]) }
     if w[0] == "iserh" { return op_iserh(w[1], w[2]) }
     let (t, a) = (w[1], w[2]);
